@@ -18,7 +18,7 @@ func fieldNameOfAddr(v ssa.Value) string {
 	}
 	if fa, ok := v.(*ssa.FieldAddr); ok {
 		st := fa.X.Type().Underlying().(*types.Pointer).Elem().Underlying().(*types.Struct)
-		return st.Field(fa.Field).Name()
+		return structFieldName(st, fa.Field)
 	}
 	return ""
 }
